@@ -30,27 +30,56 @@
 (*   "nopushonpanic"  a panicking executor forgets PushBack                 *)
 (*   "refillfirst"    the executor calls updateChan BEFORE PushBack        *)
 (***************************************************************************)
-EXTENDS Naturals, Sequences, FiniteSets, TLC
+EXTENDS Naturals, Sequences, FiniteSets
 
-CONSTANTS Tasks,         \* set of task ids
-          Eager,         \* TRUE: needAll = FALSE (Workflow, wait for one); FALSE: batch (wait for all)
-          MaxSubmits,    \* bound on non-empty submit calls
-          MaxPerSubmit,  \* bound on tasks per submit call
-          MaxPanics,     \* bound on panicking bodies
-          AllowWaitAll,  \* eager mode: the run loop may also call waitAll() (interrupt handling does)
-          Bug
+\* (the @type comments are Apalache annotations, used by the inductive-invariant attempt TaskManagerInd.tla; TLC ignores them)
+CONSTANTS
+  \* @type: Set(Str);
+  Tasks,         \* set of task ids
+  \* @type: Bool;
+  Eager,         \* TRUE: needAll = FALSE (Workflow, wait for one); FALSE: batch (wait for all)
+  \* @type: Int;
+  MaxSubmits,    \* bound on non-empty submit calls
+  \* @type: Int;
+  MaxPerSubmit,  \* bound on tasks per submit call
+  \* @type: Int;
+  MaxPanics,     \* bound on panicking bodies
+  \* @type: Bool;
+  AllowWaitAll,  \* eager mode: the run loop may also call waitAll() (interrupt handling does)
+  \* @type: Str;
+  Bug
 
-VARIABLES epc,    \* executor pc per task: idle | run | fin | upd | upd2 | done
-          err,    \* task -> its body panicked (the task then carries an error instead of an output)
-          mu, l, ch, num,
-          cpc,    \* collector pc: loop | sync | wait | w0 | recv | got | cupd | cupd2 | ret | end
-          held,   \* the task the collector received and has not returned yet (`ta`)
-          batch,  \* result slice of the current wait()
-          wall,   \* the current wait is a waitAll
-          sync,   \* task being executed synchronously on the run-loop goroutine
-          ccnt,   \* task -> how many times it has been returned by wait (must end as 1)
-          retd,   \* tasks returned by earlier wait() calls
-          nsub, npanic
+VARIABLES
+  \* @type: Str -> Str;
+  epc,    \* executor pc per task: idle | run | fin | upd | upd2 | done
+  \* @type: Str -> Bool;
+  err,    \* task -> its body panicked (the task then carries an error instead of an output)
+  \* @type: Str;
+  mu,
+  \* @type: Seq(Str);
+  l,
+  \* @type: Seq(Str);
+  ch,
+  \* @type: Int;
+  num,
+  \* @type: Str;
+  cpc,    \* collector pc: loop | sync | wait | w0 | recv | got | cupd | cupd2 | ret | end
+  \* @type: Str;
+  held,   \* the task the collector received and has not returned yet (`ta`)
+  \* @type: Set(Str);
+  batch,  \* result slice of the current wait()
+  \* @type: Bool;
+  wall,   \* the current wait is a waitAll
+  \* @type: Str;
+  sync,   \* task being executed synchronously on the run-loop goroutine
+  \* @type: Str -> Int;
+  ccnt,   \* task -> how many times it has been returned by wait (must end as 1)
+  \* @type: Set(Str);
+  retd,   \* tasks returned by earlier wait() calls
+  \* @type: Int;
+  nsub,
+  \* @type: Int;
+  npanic
 vars == <<epc, err, mu, l, ch, num, cpc, held, batch, wall, sync, ccnt, retd, nsub, npanic>>
 
 None == "none"
@@ -188,11 +217,13 @@ FairSpec == Spec /\ WF_vars(Collector) /\ \A t \in Tasks : WF_vars(Exec(t))
 ------------------------------------------------------------------------------
 (* properties                                                               *)
 
-Range(s) == {s[i] : i \in 1..Len(s)}
+\* @type: Seq(Str) => Set(Str);
+Range(s) == {s[i] : i \in DOMAIN s}
 \* between `done <- front` and `Remove(front)` the front element is in the list and already handed over
 Sending == cpc = "cupd2" \/ \E t \in Tasks : epc[t] = "upd2"
 LL == IF Sending /\ l # <<>> THEN Tail(l) ELSE l
-Occ(s, t) == Cardinality({i \in 1..Len(s) : s[i] = t})
+\* @type: (Seq(Str), Str) => Int;
+Occ(s, t) == Cardinality({i \in DOMAIN s : s[i] = t})
 Where(t) == Occ(LL, t) + Occ(ch, t) + (IF held = t THEN 1 ELSE 0) + ccnt[t]
 Pushed(t) == epc[t] \in {"upd", "upd2", "done"}
 
@@ -221,5 +252,4 @@ Term == <>(cpc = "end")
 \* every finished task is eventually returned
 Handed == \A t \in Tasks : (epc[t] = "done") ~> (ccnt[t] = 1)
 
-Sym == Permutations(Tasks)
 ================================================================================
